@@ -212,8 +212,17 @@ theorem cwc_update_mem (pre post : List WOpt) (B : List Path) (hpost : ∀ m, WO
 theorem fieldUpdater_writable (r : WriteRequest) (resW : Option (List Path)) :
     (r.fieldUpdater resW).writable =
       if r.nilWritable then none else resW.map (fun w => union w (r.moreWritable.getD [])) := by
-  unfold WriteRequest.fieldUpdater fieldUpdater
+  unfold WriteRequest.fieldUpdater
+  rw [fieldUpdater_eq]
   cases r.nilWritable <;> cases resW <;> simp
+
+theorem fieldUpdater_update (r : WriteRequest) (resW : Option (List Path)) :
+    (r.fieldUpdater resW).update = r.update := by
+  unfold WriteRequest.fieldUpdater; rw [fieldUpdater_eq]
+
+theorem fieldUpdater_reset (r : WriteRequest) (resW : Option (List Path)) :
+    (r.fieldUpdater resW).reset = r.reset := by
+  unfold WriteRequest.fieldUpdater; rw [fieldUpdater_eq]
 
 /-- A write leaves field `k` alone: its update mask (the writable fields when that is nil) and its
 reset mask have no path through `k`. -/
